@@ -449,4 +449,267 @@ theorem fftCore_spec (A : Arith K) (rd : Nat → K) (rv : Nat → Nat) (maxN m :
     rw [m2 p, if_pos ⟨Nat.zero_le _, by rw [s1]; exact hp⟩, getElem?_eq_rdA A _ p (by rw [s1]; exact hp), key p hp]
     rfl
 
+/-! ### the loops of `multiply_into` -/
+
+theorem rdA_congr (A : Arith K) (x y : Array K) (p : Nat) (h : x[p]? = y[p]?) : rdA A x p = rdA A y p := by
+  unfold rdA; rw [Array.getD_eq_getD_getElem?, Array.getD_eq_getD_getElem?, h]
+
+theorem fillRe_spec (A : Arith K) (v : Array Int) (buf : Array K) :
+    (fillRe A v buf).size = buf.size ∧
+    ∀ p, p < buf.size → rdA A (fillRe A v buf) p = if p < v.size then A.setRe (rdA A buf p) (v.getD p 0) else rdA A buf p := by
+  unfold fillRe
+  obtain ⟨h1, h2⟩ := forRange_modify_spec 0 v.size (fun i c => A.setRe c (v.getD i 0)) buf
+  refine ⟨h1, fun p hp => ?_⟩
+  apply rdA_of_getElem?
+  rw [h2 p, getElem?_eq_rdA A buf p hp]
+  by_cases h : p < v.size
+  · rw [if_pos ⟨Nat.zero_le _, h⟩, if_pos h]; rfl
+  · rw [if_neg (by omega), if_neg h]
+
+theorem fillIm_spec (A : Arith K) (v : Array Int) (buf : Array K) :
+    (fillIm A v buf).size = buf.size ∧
+    ∀ p, p < buf.size → rdA A (fillIm A v buf) p = if p < v.size then A.setIm (rdA A buf p) (v.getD p 0) else rdA A buf p := by
+  unfold fillIm
+  obtain ⟨h1, h2⟩ := forRange_modify_spec 0 v.size (fun i c => A.setIm c (v.getD i 0)) buf
+  refine ⟨h1, fun p hp => ?_⟩
+  apply rdA_of_getElem?
+  rw [h2 p, getElem?_eq_rdA A buf p hp]
+  by_cases h : p < v.size
+  · rw [if_pos ⟨Nat.zero_le _, h⟩, if_pos h]; rfl
+  · rw [if_neg (by omega), if_neg h]
+
+theorem rdA_replicate (A : Arith K) (n p : Nat) : rdA A (Array.replicate n A.zero) p = A.zero := by
+  unfold rdA
+  rw [Array.getD_eq_getD_getElem?, Array.getElem?_replicate]
+  split <;> rfl
+
+/-- `j = (n - i) & (n - 1)` is `(n - i) mod n` -/
+def negIdx (n i : Nat) : Nat := if i = 0 then 0 else n - i
+
+theorem and_mask_eq_negIdx (m i : Nat) (hi : i ≤ 2^m) : (2^m - i) &&& (2^m - 1) = negIdx (2^m) i := by
+  rw [Nat.and_two_pow_sub_one_eq_mod]
+  unfold negIdx
+  by_cases h : i = 0
+  · subst h; simp
+  · rw [if_neg h, Nat.mod_eq_of_lt (by omega)]
+
+/-- the value `v` computed by iteration `q` of the unpacking loop of `multiply_into` from the ORIGINAL buffer -/
+def unpackV (A : Arith K) (n : Nat) (x : Nat → K) (q : Nat) : K :=
+  let cj := A.conj (x (negIdx n q))
+  A.mul (A.mul (A.add (x q) cj) (A.sub cj (x q))) A.i8
+
+theorem unpack_spec (A : Arith K) (m : Nat) (hm : 1 ≤ m) (buf : Array K) (hb : buf.size = 2^m) :
+    (unpack A (2^m) buf).size = 2^m ∧
+    ∀ p, p < 2^m → rdA A (unpack A (2^m) buf) p =
+      if p = 0 ∨ p = 2^(m-1) then A.conj (unpackV A (2^m) (rdA A buf) p)
+      else if p < 2^(m-1) then unpackV A (2^m) (rdA A buf) p
+      else A.conj (unpackV A (2^m) (rdA A buf) (2^m - p)) := by
+  have hn : 2^m = 2 * 2^(m-1) := by
+    obtain ⟨q, rfl⟩ : ∃ q, m = q + 1 := ⟨m - 1, by omega⟩
+    rw [Nat.pow_succ]; simp; omega
+  have hh : 0 < 2^(m-1) := Nat.two_pow_pos _
+  unfold unpack
+  rw [two_pow_shiftRight_one m hm]
+  -- the loop body with `negIdx`
+  have hbody : ∀ (i : Nat) (x : Array K), i < 2^(m-1) + 1 →
+      (let j := (2^m - i) &&& (2^m - 1)
+       let bi := x.getD i A.zero
+       let cj := A.conj (x.getD j A.zero)
+       let v := A.mul (A.mul (A.add bi cj) (A.sub cj bi)) A.i8
+       (x.setIfInBounds i v).setIfInBounds j (A.conj v))
+      = (x.setIfInBounds i (unpackV A (2^m) (rdA A x) i)).setIfInBounds (negIdx (2^m) i) (A.conj (unpackV A (2^m) (rdA A x) i)) := by
+    intro i x hi
+    simp only [and_mask_eq_negIdx m i (by omega)]
+    rfl
+  rw [forRange_congr _ (fun i x => (x.setIfInBounds i (unpackV A (2^m) (rdA A x) i)).setIfInBounds (negIdx (2^m) i)
+      (A.conj (unpackV A (2^m) (rdA A x) i))) buf (fun i x _ hi => hbody i x hi)]
+  obtain ⟨h1, h2, h3⟩ := forRange_indep 0 (2^(m-1) + 1)
+    (fun i x => (x.setIfInBounds i (unpackV A (2^m) (rdA A x) i)).setIfInBounds (negIdx (2^m) i)
+      (A.conj (unpackV A (2^m) (rdA A x) i)))
+    (fun i p => p = i ∨ p = negIdx (2^m) i) buf
+    (by intro k x; simp)
+    (by
+      intro k x p _ _ _ hS
+      rw [Array.getElem?_setIfInBounds, if_neg (fun h => hS (Or.inr h.symm)),
+        Array.getElem?_setIfInBounds, if_neg (fun h => hS (Or.inl h.symm))])
+    (by
+      intro k x p _ _ hs hq hS
+      have e : unpackV A (2^m) (rdA A x) k = unpackV A (2^m) (rdA A buf) k := by
+        unfold unpackV
+        rw [rdA_congr A x buf k (hq k (Or.inl rfl)), rdA_congr A x buf _ (hq _ (Or.inr rfl))]
+      rw [e]
+      simp only [Array.getElem?_setIfInBounds, Array.size_setIfInBounds, hs, hq p hS])
+    (by
+      intro k k' p _ hkk' hk' hS hS'
+      unfold negIdx at hS hS'
+      rcases hS with rfl | rfl <;> rcases hS' with h | h
+      · omega
+      · split at h <;> omega
+      · split at h <;> omega
+      · split at h <;> split at h <;> omega)
+  refine ⟨by rw [h1, hb], fun p hp => ?_⟩
+  apply rdA_of_getElem?
+  by_cases hp0 : p = 0 ∨ p = 2^(m-1)
+  · rw [if_pos hp0]
+    have hneg : negIdx (2^m) p = p := by
+      unfold negIdx; rcases hp0 with rfl | rfl
+      · simp
+      · rw [if_neg (by omega)]; omega
+    rw [h2 p p (Nat.zero_le _) (by omega) (Or.inl rfl), hneg,
+      Array.getElem?_setIfInBounds, if_pos rfl, Array.size_setIfInBounds, if_pos (by omega)]
+  · rw [if_neg hp0]
+    by_cases hlt : p < 2^(m-1)
+    · rw [if_pos hlt, h2 p p (Nat.zero_le _) (by omega) (Or.inl rfl)]
+      have hneg : negIdx (2^m) p ≠ p := by unfold negIdx; rw [if_neg (by omega)]; omega
+      rw [Array.getElem?_setIfInBounds, if_neg hneg, Array.getElem?_setIfInBounds, if_pos rfl, if_pos (by omega)]
+    · rw [if_neg hlt]
+      have hneg : negIdx (2^m) (2^m - p) = p := by unfold negIdx; rw [if_neg (by omega)]; omega
+      rw [h2 (2^m - p) p (Nat.zero_le _) (by omega) (Or.inr hneg.symm), hneg,
+        Array.getElem?_setIfInBounds, if_pos rfl, Array.size_setIfInBounds, if_pos (by omega)]
+
+
+theorem foldHalf_spec (A : Arith K) (f : K → K) (w : Array K) (maxN m : Nat) (hm : 1 ≤ m) (buf : Array K)
+    (hb : buf.size = 2^m) :
+    (foldHalf A f w maxN (2^m) buf).size = 2^m ∧
+    (∀ p, p < 2^(m-1) → rdA A (foldHalf A f w maxN (2^m) buf) p =
+      f (A.sub (A.add (rdA A buf p) (rdA A buf (p + 2^(m-1))))
+          (A.mul (A.sub (rdA A buf p) (rdA A buf (p + 2^(m-1))))
+            (w.getD (maxN - maxN >>> 2 - maxN / 2^m * p) A.zero)))) := by
+  have hn : 2^m = 2 * 2^(m-1) := by
+    obtain ⟨q, rfl⟩ : ∃ q, m = q + 1 := ⟨m - 1, by omega⟩
+    rw [Nat.pow_succ]; simp; omega
+  unfold foldHalf
+  simp only []
+  rw [two_pow_shiftRight_one m hm]
+  obtain ⟨h1, h2, _⟩ := forRange_set_spec 0 (2^(m-1)) (fun i => i)
+    (fun i b => f (A.sub (A.add (b.getD i A.zero) (b.getD (i + 2^(m-1)) A.zero))
+      (A.mul (A.sub (b.getD i A.zero) (b.getD (i + 2^(m-1)) A.zero)) (w.getD (maxN - maxN >>> 2 - maxN / 2^m * i) A.zero))))
+    (fun i => f (A.sub (A.add (rdA A buf i) (rdA A buf (i + 2^(m-1))))
+      (A.mul (A.sub (rdA A buf i) (rdA A buf (i + 2^(m-1)))) (w.getD (maxN - maxN >>> 2 - maxN / 2^m * i) A.zero))))
+    buf (fun i j _ h _ => by omega)
+    (by
+      intro i x _ hi _ hx
+      have e1 : x.getD i A.zero = rdA A buf i := by
+        unfold rdA; rw [Array.getD_eq_getD_getElem?, Array.getD_eq_getD_getElem?, hx i (fun j _ hj => by omega)]
+      have e2 : x.getD (i + 2^(m-1)) A.zero = rdA A buf (i + 2^(m-1)) := by
+        unfold rdA; rw [Array.getD_eq_getD_getElem?, Array.getD_eq_getD_getElem?, hx _ (fun j _ hj => by omega)]
+      rw [e1, e2])
+  refine ⟨by rw [h1, hb], fun p hp => ?_⟩
+  apply rdA_of_getElem?
+  exact h2 p (Nat.zero_le _) hp (by omega)
+
+theorem extract_spec (A : Arith K) (buf : Array K) (h : Nat) (hh : h ≤ buf.size) :
+    (buf.extract 0 h).size = h ∧ ∀ p, p < h → rdA A (buf.extract 0 h) p = rdA A buf p := by
+  refine ⟨by rw [Array.size_extract]; omega, fun p hp => ?_⟩
+  apply rdA_congr
+  rw [Array.getElem?_extract, if_pos (by omega), Nat.zero_add]
+
+theorem roundPairs_getElem? (A : Arith K) (buf : Array K) (u : Nat) (hu : u < 2 * buf.size) :
+    (roundPairs A buf)[u]? = some (if u % 2 = 0 then A.roundRe (rdA A buf (u / 2)) else A.roundIm (rdA A buf (u / 2))) := by
+  unfold roundPairs rdA
+  obtain ⟨l⟩ := buf
+  simp only [List.size_toArray] at hu
+  simp only [Array.getD_eq_getD_getElem?, List.getElem?_toArray]
+  induction l generalizing u with
+  | nil => simp at hu
+  | cons c l ih =>
+    rw [List.flatMap_cons]
+    match u with
+    | 0 => simp
+    | 1 => simp
+    | u+2 =>
+      have := ih u (by simp only [List.length_cons] at hu; omega)
+      rw [show ([A.roundRe c, A.roundIm c] ++ List.flatMap (fun c => [A.roundRe c, A.roundIm c]) l)[u+2]?
+            = (List.flatMap (fun c => [A.roundRe c, A.roundIm c]) l)[u]? by
+          rw [List.getElem?_append_right (by simp)]; simp]
+      rw [this]
+      have e1 : (u + 2) % 2 = u % 2 := by omega
+      have e2 : (u + 2) / 2 = u / 2 + 1 := by omega
+      rw [e1, e2, List.getElem?_cons_succ]
+
+theorem length_roundPairs (A : Arith K) (buf : Array K) : (roundPairs A buf).length = 2 * buf.size := by
+  unfold roundPairs
+  obtain ⟨l⟩ := buf
+  simp only [List.size_toArray]
+  induction l with
+  | nil => rfl
+  | cons c l ih => rw [List.flatMap_cons, List.length_append, ih]; simp; omega
+
+/-! ### the executable convolution -/
+
+theorem convRow_spec (x : Int) (b : Array Int) (k : Nat) (acc : Array Int) :
+    (convRow x b k acc).size = acc.size ∧
+    ∀ p, (convRow x b k acc)[p]? =
+      if k ≤ p ∧ p < k + b.size then acc[p]?.map (· + x * b.getD (p - k) 0) else acc[p]? := by
+  unfold convRow
+  refine forRange_induct _ acc (fun j y => y.size = acc.size ∧ ∀ p, y[p]? =
+      if k ≤ p ∧ p < k + j then acc[p]?.map (· + x * b.getD (p - k) 0) else acc[p]?) (Nat.zero_le _) ?_ ?_
+  · exact ⟨rfl, fun p => by rw [if_neg (by omega)]⟩
+  · intro j y _ hj ⟨hs, hy⟩
+    refine ⟨by rw [Array.size_modify, hs], fun p => ?_⟩
+    rw [Array.getElem?_modify, hy p]
+    by_cases hp : k + j = p
+    · subst hp
+      rw [if_pos rfl, if_neg (by omega), if_pos (by omega), Nat.add_sub_cancel_left]
+    · rw [if_neg hp]
+      by_cases hq : k ≤ p ∧ p < k + j
+      · rw [if_pos hq, if_pos (by omega)]
+      · rw [if_neg hq, if_neg (by omega)]
+
+theorem conv_getElem? (a b : Array Int) (ha : a.size ≠ 0) (hb : b.size ≠ 0) (p : Nat) :
+    (conv a b)[p]? = if p < a.size + b.size - 1 then some (convAt a b p) else none := by
+  unfold conv
+  rw [if_neg (by omega)]
+  rw [Array.getElem?_toList]
+  have key := forRange_induct (fun i acc =>
+      let x := a.getD i 0
+      if x = 0 then acc else convRow x b i acc) (Array.replicate (a.size + b.size - 1) 0)
+    (fun i y => i ≤ a.size → y.size = a.size + b.size - 1 ∧ ∀ p, y[p]? =
+      if p < a.size + b.size - 1 then
+        some (sumTo i (fun s => if s ≤ p ∧ p - s < b.size then a.getD s 0 * b.getD (p - s) 0 else 0)) else none)
+    (Nat.zero_le a.size) ?_ ?_
+  · exact (key (Nat.le_refl _)).2 p
+  · intro _
+    refine ⟨by simp, fun p => ?_⟩
+    rw [Array.getElem?_replicate]; rfl
+  · intro i y _ hi ih _
+    obtain ⟨hs, hy⟩ := ih (by omega)
+    have hrow : ∀ p, (let x := a.getD i 0; if x = 0 then y else convRow x b i y)[p]? =
+        if i ≤ p ∧ p < i + b.size then y[p]?.map (· + a.getD i 0 * b.getD (p - i) 0) else y[p]? := by
+      intro p
+      show (if a.getD i 0 = 0 then y else convRow (a.getD i 0) b i y)[p]? = _
+      by_cases hx : a.getD i 0 = 0
+      · rw [if_pos hx, hx]
+        split
+        · cases y[p]? <;> simp
+        · rfl
+      · rw [if_neg hx]; exact (convRow_spec _ b i y).2 p
+    refine ⟨?_, fun p => ?_⟩
+    · show (if a.getD i 0 = 0 then y else convRow (a.getD i 0) b i y).size = _
+      by_cases hx : a.getD i 0 = 0
+      · rw [if_pos hx]; exact hs
+      · rw [if_neg hx, (convRow_spec _ b i y).1, hs]
+    · rw [hrow p, hy p]
+      simp only [sumTo]
+      by_cases hp : p < a.size + b.size - 1
+      · rw [if_pos hp, if_pos hp]
+        by_cases hr : i ≤ p ∧ p < i + b.size
+        · rw [if_pos hr, if_pos ⟨hr.1, by omega⟩]; rfl
+        · rw [if_neg hr, if_neg (by omega), Int.add_zero]
+      · rw [if_neg hp, if_neg hp]
+        split <;> rfl
+
+/-- The executable convolution used by the driver is the mathematical one. -/
+theorem conv_eq_convSpec (a b : Array Int) : conv a b = convSpec a b := by
+  by_cases he : a.size = 0 ∨ b.size = 0
+  · unfold conv convSpec; rw [if_pos he, if_pos he]
+  · unfold convSpec
+    rw [if_neg he]
+    apply List.ext_getElem?
+    intro p
+    rw [conv_getElem? a b (by omega) (by omega) p, List.getElem?_map]
+    by_cases hp : p < a.size + b.size - 1
+    · rw [if_pos hp, List.getElem?_range hp]; rfl
+    · rw [if_neg hp, List.getElem?_eq_none (by simpa using hp)]; rfl
+
 end Rlib.Fft
